@@ -12,7 +12,7 @@ THEOREMS = ["ShipVerif.Double.C05_rule_agreement", "ShipVerif.Double.keepNew_ord
 
 def run_engine(d, seed, n, ops, only=-1):
     out = os.path.join(d, "twohubs%s.txt" % ("_r" if only >= 0 else ""))
-    q = C.run([C.HARNESS, "twohubs", "-seed", str(seed), "-n", str(n), "-ops", str(ops), "-workers", str(min(n, 30)), "-only", str(only), "-out", out], cwd=d, timeout=3600)
+    q = C.run([C.HARNESS, "twohubs", "-seed", str(seed), "-n", str(n), "-ops", str(ops), "-workers", str(min(n, 30)), "-only", str(only), "-out", out], cwd=d, timeout=C.engine_timeout())
     if q.returncode != 0:
         return None, (q.stdout or "")[-3000:]
     return open(out).read().splitlines(), None
